@@ -19,7 +19,8 @@ EXPLANATION = (
     "(termination) every non-iterator loop and explicit panic construct of the builder is in a reviewed inventory "
     "(tables/c20.json) with its exit conditions; the sampler's fill loop leaves at end of input because a zero read "
     "resizes the lake to the bytes read, which makes its exit test true. "
-    "Not decided: termination for sources that never end; statistical quality of the sample.")
+    "Every compiler-inserted run-time check (index, division, overflow) and value-partial std call of the builder is a "
+    "reviewed site (tables/c20.json: arith). Not decided: termination for sources that never end; statistical quality of the sample.")
 ASSUMPTIONS = ["io::Read/Write implementations of the caller terminate", "BinaryHeap::pop removes one element"]
 
 DM = "ruzstd::dictionary"
